@@ -5,7 +5,7 @@ RULE = ("one contract family per case (reputation, audit, container size estimat
         "reads, listings, netmap ticks (strictly increasing, with jumps over 127/128, 255/256, 65535/65536) and direct "
         "container.newEpoch calls; epochs from {0,1,2,127,128,129,255,256,257,258,511,512,513,65535,65536,65537,65793,2^24-1,2^24,2^32, "
         "cur-6..cur+2, random}; crafted peers/container ids that make one key a byte-prefix of another; lengths 24/25/26, 31/32/33/34, "
-        "storage keys of 64/65 bytes; signer sets: Alphabet, the right key, another key, Alphabet+key, nobody; truncated/garbled audit "
+        "storage keys of 64/65 bytes; signer sets: Alphabet, the right key, another key, Alphabet+key, nobody, and two-signer sets (directed after every designation / in every estimation case and in the random stream: {member/node A + outsider X, reporter X}, {A + B, reporter B}, {outsiders X + Y, reporter X}, {A + X, reporter A}); truncated/garbled audit "
         "results; every third round leaves the quantifier (negative epochs, variable-length peers/container ids) and is compared with "
         "the model only. Every estimation case starts with a directed block: a put, listContainerSizes, getContainerSize(listed id) and "
         "iterateContainerSizes at epochs 0 (empty encoding: id = cnr||cid), 1, 127, 128, 255, 256. Observations: read/list API results in storage order + decoded raw storage of the family after every "
